@@ -26,7 +26,7 @@ CHECKS = {
     "C12": {"stages": [("plain", "c12", 0.7, []), ("asan", "c12", 0.3, [])], "level": "exploration"},
     "C19": {"stages": [("plain", "c19", 0.5, []), ("asan", "c19", 0.5, [])], "level": "fault_enumeration"},
 }
-TIER_SECONDS = {"quick": 90, "thorough": 1500}
+TIER_SECONDS = {"quick": 90, "thorough": 900}
 HANG_LIMIT = {"quick": 60.0, "thorough": 300.0}     # seconds without any output from a worker
 
 REAL_VS_STUB = {
